@@ -40,6 +40,12 @@ def fixed_examples():
     ]
     out += [("pinched_open", pinched_open()), ("two_site_torus", two_site_torus())]
     out += [("spike_first", spike_first()), ("spike_first_torus", spike_first(torus=True))]
+    r0 = np.random.default_rng(20260929)
+    out += [("star_ring", star_ring(r0)), ("comb_ring", comb_ring(r0)), ("big_ring", big_ring(r0)),
+            ("two_triangles@wall", translate(eg.two_triangles(), (0.62, 0.71))), ("tri_square_pent@corner", translate(eg.tri_square_pent(), (0.55, 0.6))),
+            ("square33-patch@wall", translate(cut_boundaries(eg.square_lattice(3, 3)), (0.5, 0.0))),
+            ("honey3-island", island(eg.honeycomb_lattice(3), 4)), ("sliver_wheel", sliver_wheel(r0, 2e-7, False)), ("sliver_wheel-swapped", sliver_wheel(r0, 2e-7, True)),
+            ("sliver_wheel-1e-8", sliver_wheel(r0, 1e-8, True))]
     for n in (3, 5):
         a, b = mirror_rows(n)
         out += [(f"row{n}-top", a), (f"row{n}-bottom", b)]
@@ -207,6 +213,46 @@ def comb_ring(rng, teeth=None, vertical=None):
     return ring_from_polygon(pts)
 
 
+def translate(l, t):
+    """the same drawing moved by t on the torus: positions mod 1, crossings corrected by the cells the end points moved into.  A finite patch moved across a
+    cell wall has crossing edges although nothing wraps round the torus: its outer face is a contractible clockwise walk."""
+    P, E, C = raw(l)
+    Q = P + np.asarray(t, dtype=float)
+    s_ = np.floor(Q).astype(int)
+    return Lattice(Q - s_, E, C + s_[E[:, 1]] - s_[E[:, 0]])
+
+
+def sliver_wheel(rng, delta=None, swap=None):
+    """a wheel whose hub has two spokes leaving in almost - not exactly - the same direction (1e-8 .. 1e-6 rad apart, far above the 1e-9 genericity threshold),
+    numbered either way round: a legitimate embedding in which one triangle of the fan is a thin sliver"""
+    delta = 10.0 ** rng.uniform(-8, -6) if delta is None else delta
+    swap = bool(rng.integers(2)) if swap is None else swap
+    k = int(rng.integers(5, 8))
+    gaps = rng.uniform(0.6, 1.2, size=k); gaps *= (2 * np.pi - 0.9) / gaps.sum()
+    ang = rng.uniform(0, 2 * np.pi) + np.concatenate([[0.0], np.cumsum(gaps)[:-1]])
+    j = int(rng.integers(1, k - 1))
+    ang = np.insert(ang, j + 1, ang[j] + delta)                      # spokes j and j+1 are delta apart
+    r = rng.uniform(0.28, 0.42, size=len(ang))
+    hub = np.array([0.5, 0.5])
+    rim = hub + r[:, None] * np.stack([np.cos(ang), np.sin(ang)], 1)
+    n = len(ang)
+    spokes = [[0, i + 1] for i in range(n)]
+    if swap:
+        spokes[j], spokes[j + 1] = spokes[j + 1], spokes[j]
+    rims = [[i + 1, (i + 1) % n + 1] for i in range(n)]
+    e = np.array(spokes + rims)
+    return Lattice(np.concatenate([hub[None], rim]), e, np.zeros_like(e))
+
+
+def island(l, i=0):
+    """cut plaquette i loose from the rest of a closed lattice (drop every edge that touches it without belonging to it): the island's outer boundary is a
+    contractible clockwise walk inside a big face of the remainder"""
+    p = l.plaquettes[i]
+    vs = set(int(v) for v in p.vertices); es = set(int(e) for e in p.edges)
+    keep = np.array([(k in es) or not (int(a) in vs or int(b) in vs) for k, (a, b) in enumerate(l.edges.indices)])
+    return Lattice(l.vertices.positions, l.edges.indices[keep], l.edges.crossing[keep])
+
+
 def voronoi(rng, N, shift=None):
     pts = rng.uniform(size=(N, 2))
     shift = bool(rng.integers(2)) if shift is None else shift
@@ -249,7 +295,7 @@ def random_cases(rng, n, max_seeds=40, families=None):
     """n random zoo lattices (name, family, lattice)"""
     out = []
     fams = families or ["vor", "vor-x", "vor-y", "vor-xy", "vor-sub", "vor-vdel", "vor-dual", "vor-trunc",
-                        "vor-iso", "vor-tile", "dyadic", "cut-sub", "trail", "vor-pinch", "vor-cluster", "vor-antidiag"]
+                        "vor-iso", "vor-tile", "dyadic", "cut-sub", "trail", "vor-pinch", "vor-cluster", "vor-antidiag", "patch-moved", "sliver", "island"]
     t = 0
     while len(out) < n:
         fam = fams[t % len(fams)]
@@ -291,6 +337,14 @@ def random_cases(rng, n, max_seeds=40, families=None):
                 c = cluster_voronoi(rng)
             elif fam == "vor-antidiag":
                 c = voronoi_antidiag(rng, max(N, 6))
+            elif fam == "patch-moved":
+                c = translate(cut_boundaries(l) if rng.integers(2) else star_ring(rng), rng.uniform(0, 1, size=2))
+            elif fam == "sliver":
+                c = sliver_wheel(rng)
+            elif fam == "island":
+                if l.n_plaquettes < 6:
+                    continue
+                c = island(l, int(rng.integers(l.n_plaquettes)))
             elif fam == "dyadic":
                 c = snap_dyadic(l)
             elif fam == "cut-sub":
